@@ -389,6 +389,11 @@ func (c *Conn) HandshakeContext(ctx context.Context) error {
 // DTLS 1.3 is selected, the DTLS 1.3 FSM imports those packets into its
 // transcript.
 func (c *Conn) prepareHandshakeStart(ctx context.Context) (handshakeStart, error) {
+	if c.handshakeConfig.ResumeState != nil {
+		// Serialized state is always DTLS 1.2 state: resume it whatever version
+		// range the options allow instead of starting a new handshake.
+		return c.prepareHandshakeStart12(), nil
+	}
 	if c.handshakeConfig.MaxVersion == protocol.Version1_2 {
 		return c.prepareHandshakeStart12(), nil
 	}
